@@ -87,7 +87,7 @@ def run(name, checks):
         sh(["git", "-C", REPO, "checkout", "--", "."])
         json.dump(meta, open(os.path.join(d, "meta.json"), "w"), indent=1)
         # evidence files were rewritten by runs on a modified tree: restore the committed ones
-        sh(["git", "-C", VERIF, "checkout", "--", "evidence", "lean/Jose/Tables.lean", "lean/Jose/SugTable.lean"])
+        sh(["git", "-C", VERIF, "checkout", "--", "evidence", "lean/Jose/Tables.lean", "lean/Jose/SugTable.lean", "lean/Jose/Grid"])
 
 
 if __name__ == "__main__":
